@@ -1,5 +1,11 @@
 """Per-property manifest texts."""
 CHECKS = {
+    "C16": {
+        "text": "LVDag.tla defines tagged DAGs, the ADMG<->LV-DAG conversions, the latent projection by its path definition and Evans' four rules; LVMachine.tla applies any applicable rule in any order and TLC model-checks, on every tagged DAG with <= 4 nodes and every ADMG <= 3 nodes with extra latents, that the projection is invariant, observed nodes are kept, a fully simplified DAG reads as the projection of the start, and m-separation in the projection equals d-separation in the DAG. TLC prints every start state with its projection; simplify_latent_dag (observed kept, idempotent, read-off ADMG = projection), evans_simplify(G, latents=L) and the ADMG->LV-DAG->ADMG round trip (isolated nodes included) are replayed under 2-3 insertion orders and compared.",
+        "ref": "DESIGN.md section 4/C16",
+        "note": "Exhaustive for tagged DAGs <= 4 nodes (thorough: 5), ADMGs <= 4 nodes x every latent subset; seeded 5-/6-node DAGs. The identifiability consequence rests on C02's oracle being a function of the ADMG; taheri_design is not replayed.",
+        "technique": "TLA+ state machine of Evans' rules model-checked by TLC against the path definition of latent projection; TLC-generated start states and projections replayed into the implementation",
+    },
     "C10": {
         "text": "ExprCalc.tla is a state machine whose state is a math term of the free algebra of the public DSL operations; Math(m) (ExprMath.tla) is its meaning built with pure term constructors and evaluated with Den of Sem.tla on a generic distribution. TLC enumerates the terms (BFS to depth 1-2, random walks deeper); the driver builds each with the real operators and canonicalises it under 3 orderings; TLC validates (TV.tla kind canon) that the canonical object denotes the same function of all value assignments as the presentation, and that distinct presentations which the library declares canonically equal (same canonical form) are semantically equal (kind eq).",
         "ref": "DESIGN.md section 4/C10-C13",
